@@ -475,3 +475,14 @@ def k10_unique_fields(ctx):
 
 
 RULES.append(('K10', k10_unique_fields))
+
+
+def k11_lexical(ctx):
+    """K11 every unit spelling reaches the unit reader as a word (E7b lexical competition model: month stage, regex families in TOKEN_REGEX_PARSER order with first-claim-wins,
+    alias stage; samples generated from the configuration)"""
+    from ..lexrules import run_samples, number_samples, based_samples, money_samples, unit_samples, month_samples, zone_samples, duration_samples, percent_samples, keyword_samples
+    ctx.rule('K11', 'every unit spelling reaches the unit reader as a word', floor=120)
+    run_samples(ctx, 'K11', unit_samples(ctx))
+
+
+RULES.append(('K11', k11_lexical))
